@@ -24,9 +24,9 @@ func init() {
 		Assumptions: []string{"gene lists sorted by innovation number, coefficients non-negative", "1e-9 relative tolerance between different summation orders"},
 		Cases: func(tier string) int {
 			if tier == "quick" {
-				return 128
+				return 2560
 			}
-			return 1600
+			return 12800
 		},
 		Run:      runC07,
 		Required: []string{"pairs.synthetic", "pairs.evolved", "pattern.empty_overlap", "pattern.prefix", "pattern.interleaved", "pattern.identical", "pattern.excess_tail", "pattern.one_empty"},
